@@ -130,6 +130,26 @@ You can provide input either as a file (as the first argument) or by piping logs
 				os.Exit(1)
 			}
 
+			// Atlas mode needs a cluster to read from and an API key pair; reject the job before any side effect
+			publicKey := atlasPublicKey
+			privateKey := atlasPrivateKey
+			if atlasParamsSet {
+				if atlasProjectId == "" || atlasClusterName == "" {
+					fmt.Fprintln(os.Stderr, "Error: Atlas parameters require both --atlasProjectId and --atlasClusterName.")
+					os.Exit(1)
+				}
+				if publicKey == "" {
+					publicKey = os.Getenv("ATLAS_PUBLIC_KEY")
+				}
+				if privateKey == "" {
+					privateKey = os.Getenv("ATLAS_PRIVATE_KEY")
+				}
+				if publicKey == "" || privateKey == "" {
+					fmt.Fprintln(os.Stderr, "Error: Atlas public/private key not set. Please provide --atlasPublicKey and --atlasPrivateKey or set ATLAS_PUBLIC_KEY and ATLAS_PRIVATE_KEY environment variables.")
+					os.Exit(1)
+				}
+			}
+
 			SetRedactedString(replacement)
 			SetRedactNumbers(redactNumbers)
 			SetRedactIPs(redactIPs)
@@ -180,18 +200,6 @@ You can provide input either as a file (as the first argument) or by piping logs
 
 			// --- Atlas mode ---
 			if atlasParamsSet {
-				publicKey := atlasPublicKey
-				privateKey := atlasPrivateKey
-				if publicKey == "" {
-					publicKey = os.Getenv("ATLAS_PUBLIC_KEY")
-				}
-				if privateKey == "" {
-					privateKey = os.Getenv("ATLAS_PRIVATE_KEY")
-				}
-				if publicKey == "" || privateKey == "" {
-					fmt.Fprintln(os.Stderr, "Error: Atlas public/private key not set. Please provide --atlasPublicKey and --atlasPrivateKey or set ATLAS_PUBLIC_KEY and ATLAS_PRIVATE_KEY environment variables.")
-					os.Exit(1)
-				}
 				client := NewAtlasClient(nil)
 				start, end := GetStartAndEndDates()
 				files, err := client.DownloadClusterLogs(cmd.Context(), publicKey, privateKey, atlasProjectId, atlasClusterName, start, end)
